@@ -10,6 +10,7 @@ import ClientGoVerif.Proofs.MvccWrites
 import ClientGoVerif.Proofs.Perc
 import ClientGoVerif.Proofs.MvccTemporal
 import ClientGoVerif.Proofs.MvccAtomic
+import ClientGoVerif.Proofs.Told
 namespace CGV.Props.C03
 open CGV CGV.Mvcc CGV.Perc
 
@@ -91,6 +92,28 @@ example : FailAll 10 [0x61] {}
       subst hw
       exact absurd rfl hv
   · intro _ _; decide
+
+/-! ### the judge's oracle says what the property says.  `toldCheck` (Driver/Hub.lean) fails a trace in which Commit answered a
+    definite error iff `committedAtOf store T` is `some _`, and accepts `ok c` when it is `some c`. -/
+
+/-- "answered a definite error" passes the oracle exactly when NO key of the store carries a data record of the transaction … -/
+theorem oracle_not_committed_iff_no_data_record (s : Store) (T : Nat) :
+    committedAtOf s T = none ↔ ¬ HasDataRec s T := committedAtOf_none_iff s T
+
+/-- … which on a well-formed store is `NeverCommitted` of the store theorems: no read at any timestamp on any key returns a
+    version the transaction wrote -/
+theorem oracle_not_committed_means_invisible (s : Store) (T : Nat) (hs : KvSorted s.kv) (h : committedAtOf s T = none) :
+    NeverCommitted T s ∧ ∀ k ts w, firstVisible (getEntry s.kv k).writes ts = some w → w.startTS ≠ T :=
+  have hn := (noDataRec_iff_neverCommitted s T hs).1 ((committedAtOf_none_iff s T).1 h)
+  ⟨hn, fun k ts w hw => hn.invisible k ts w hw⟩
+
+/-- the commit ts the oracle compares a success answer with is the commit ts of a data record of the transaction in the store -/
+theorem oracle_commit_ts_is_in_store (s : Store) (T c : Nat) (h : committedAtOf s T = some c) :
+    ∃ p ∈ s.kv, ∃ w ∈ p.2.writes, w.startTS = T ∧ w.vt ≠ .rollback ∧ w.commitTS = c := committedAtOf_some s T c h
+
+/-- non-vacuity: a committed key is seen, a rolled-back one is not -/
+example : committedAtOf { kv := [([0x61], { writes := [⟨.put, 10, 20, [1]⟩] })] } 10 = some 20 := by decide
+example : committedAtOf { kv := [([0x61], { writes := [⟨.rollback, 10, 10, []⟩] })] } 10 = none := by decide
 
 theorem owner_rollback_only_before_commit_point (m m' : MState) (client : String) (fate : Fate) (S : Nat) (keys : List Bytes)
     (h : Monitor.step m (.rollback client fate S keys) = .ok m') :
